@@ -92,11 +92,11 @@ def answerCore (fs : List (String × String)) : E String := do
           let pr := lppProblemD L.get Dg.get F
           pure (L.data, some Dg.data, pr.1.data, pr.2.data)
         else if method == "npe" then do
-          let (M, _, _) ← runModelLle hN fs κ nb
+          let (M, _, _, _) ← runModelLle hN fs κ nb
           let pr := npeProblemD (matOf M N N) F
           pure (M, none, pr.1.data, pr.2.data)
         else do
-          let (M, _, _) ← runModelEig hN fs κ nb false
+          let (M, _, _, _) ← runModelEig hN fs κ nb false
           let pr := lltsaProblemD (matOf M N N) F
           pure (M, none, pr.1.data, pr.2.data)
       if threw != "-" then return s!"res=FAIL:threw what={threw}"
